@@ -262,6 +262,35 @@ def header_cuts(n, pkts):
         yield list(range(1, n))
 
 
+def length_cuts(n, pkts):
+    """Chunk ends at the places a naive reading of the header bytes would take for the end of a
+    packet (a length byte taken with its continuation bit, without its successors, off by one ...),
+    each with the chunk starting at the packet boundary (receive buffer empty) and in mid-stream."""
+    pos = 0
+    for p in pkts:
+        raw = rc.encode(p, 4)
+        cands = set()
+        for b in (raw[1], raw[1] & 0x7F) + ((raw[2], raw[2] & 0x7F, (raw[1] & 0x7F) + raw[2]) if len(raw) > 2 else ()):
+            for off in (0, 1, 2, 3, 4, 5):
+                cands.add(b + off)
+        for c in sorted(cands):
+            if 0 < c < len(raw) and pos + c < n:
+                yield [pos + c]
+                if pos:
+                    yield [pos, pos + c]
+        pos += len(raw)
+    if n <= 1200:       # and every single cut, alone and after a cut at each packet boundary
+        starts, pos = [], 0
+        for p in pkts[:-1]:
+            pos += len(rc.encode(p, 4))
+            starts.append(pos)
+        for c in range(1, n):
+            yield [c]
+            for s0 in starts:
+                if s0 < c:
+                    yield [s0, c]
+
+
 def random_cuts(count, seed):
     def f(n, pkts):
         rng = random.Random(seed * 31 + n)
@@ -331,6 +360,7 @@ class P03(Plan):
             long_streams += [("puback", "q1_4b", "pubcomp"), ("q1_4b",)]
         for st in long_streams:
             yield ChunkCase("header-cuts/long", cfg, "busy", st, header_cuts)
+            yield ChunkCase("length-cuts/long", cfg, "busy", st, length_cuts)
             yield ChunkCase("random-cuts/long", cfg, "busy", st, random_cuts(60 if tier == "quick" else 600, seed))
 
     def case_from_replay(self, d):
@@ -600,6 +630,10 @@ STATES20 = {
     "connected": connected(win=3),
     "connected-busy": connected(win=4, ka=30) + [("pub", 0, 1), ("pub", 0, 2), ("ack", 0, "PUBREC", "old"), ("sub", 0, "str", 1, 1), ("unsub", 0, "str", 1)],
     "connected-full": connected(win=1) + [("pub", 0, 1), ("pub", 0, 1), ("pub", 0, 0)],
+    # several exchanges in flight (a valid window size below their number is still a valid window size)
+    "connected-inflight": connected(win=5) + [("pub", 0, 1), ("pub", 0, 2), ("pub", 0, 1), ("pub", 0, 1)],
+    # a fresh protocol that inherits the unfinished exchanges of a persistent session
+    "idle-inherited": connected(clean=False, win=5) + [("pub", 0, 1), ("pub", 0, 2), ("pub", 0, 1), ("pub", 0, 1), ("lose", 0, "done"), ("build", 0)],
 }
 POST20 = [("pub", 0, 1, False, 3000), ("adv", 45), ("ack", 0, "PUBACK", "old"), ("sub", 0, "str", 1, 1), ("unsub", 0, "str", 1),
           ("ack", 0, "SUBACK", "old"), ("ack", 0, "UNSUBACK", "old"), ("sub", 0, "list", 2, 0), ("pub", 0, 2), ("adv", 9), ("lose", 0, "lost"), ("adv", 2)]
@@ -611,7 +645,7 @@ def where_allowed(op, prof, state):
     if op == "connect":
         return state == "idle"
     if op == "publish":
-        return prof in ("pub", "pubsub") and state != "idle"
+        return prof in ("pub", "pubsub") and not state.startswith("idle")
     return prof in ("sub", "pubsub") and state.startswith("connected")
 
 
